@@ -36,7 +36,7 @@ ASSUMPTIONS = ["explicit key mappings (the inferred map is C17's subject)", "pan
 REQUIRED_CLASSES = {t: ["c12:ids=str", "c12:ids=noncontig", "c12:ids=float", "c12:renamed", "c12:3D",
                         "c12:malformed:duplicate_id", "c12:malformed:unknown_parent", "c12:malformed:self_link",
                         "c12:malformed:missing_column", "c12:malformed:unmapped_key", "part:geff",
-                        "c12:crossed_single_value_names", "c12:non_default_index", "c12:via_csv_file", "c12:geff_malformed:duplicate_id",
+                        "c12:crossed_single_value_names", "c12:non_default_index", "c12:via_csv_file", "c12:legacy_axis_keys", "c12:features_arg", "c12:geff_malformed:duplicate_id",
                         "c12:geff_malformed:unknown_parent", "c12:geff_malformed:self_link"]
                     for t in ("quick", "thorough")}
 
@@ -112,7 +112,8 @@ def sources(draw, geff=False):
             "pos_order": list(pos_order), "customs": customs,
             "root": draw(st.sampled_from(["minus1", "nan", "empty"])),
             "shuffle": draw(st.integers(0, 8)), "index_mode": draw(st.sampled_from([0, 0, 1, 2, 3, 4])),
-            "via_file": draw(st.integers(0, 3)) == 0,
+            "via_file": draw(st.integers(0, 3)) == 0, "legacy_pos": draw(st.integers(0, 4)) == 0,
+            "features_arg": draw(st.integers(0, 3)) == 0,
             "mutation": draw(st.sampled_from([None, None, None, "duplicate_id", "unknown_parent", "self_link",
                                               "missing_column", "unmapped_key", "mapped_to_missing"])),
             "mpick": draw(st.integers(0, 100))}
@@ -162,6 +163,11 @@ def _frame(inp):
           "pos": [cols[axes[i]] for i in inp["pos_order"]], "uid": cols["uid"]}
     for k2 in inp["customs"]:
         nm[k2] = cols[k2]
+    if inp.get("legacy_pos"):
+        # legacy form of the mapping: one key per axis instead of the composite "pos"
+        nm.pop("pos")
+        for a in axes:
+            nm[a] = cols[a]
     return df, nm, axes
 
 
@@ -198,7 +204,10 @@ def _mutate(inp, df, nm):
         return df.drop(columns=[nm[key]]), nm, mut
     if mut == "unmapped_key":
         key = ["time", "id", "parent_id", "pos"][pick % 4]
-        nm = {k: v for k, v in nm.items() if k != key}
+        if key == "pos" and "pos" not in nm:  # legacy per-axis form: unmap every axis key
+            nm = {k: v for k, v in nm.items() if k not in ("z", "y", "x")}
+        else:
+            nm = {k: v for k, v in nm.items() if k != key}
         return df, nm, mut
     if mut == "mapped_to_missing":
         key = ["time", "id", "parent_id"][pick % 3]
@@ -261,6 +270,10 @@ def probe_df(inp) -> ProbeResult:
                 finally:
                     shutil.rmtree(tmpd, ignore_errors=True)
                 res.tags.append("c12:via_csv_file")
+            elif inp.get("features_arg") and "cf" not in inp["customs"]:
+                # a measurement loaded from a column through the features= argument
+                res.tags.append("c12:features_arg")
+                tracks = tracks_from_df(df, node_name_map=dict(nm), features={"Measure": inp["cols"]["cf"]})
             else:
                 tracks = tracks_from_df(df, node_name_map=dict(nm))
     except Exception as e:  # noqa: BLE001 - a well-formed source must import
@@ -297,9 +310,14 @@ def probe_df(inp) -> ProbeResult:
     got_edges = set(g.edges)
     if got_edges != exp_edges:
         res.fail("edges", f"imported edges {sorted(got_edges)} != source links {sorted(exp_edges)} (imported ids)")
-    order = inp["pos_order"]
+    order = list(range(inp["nsp"])) if inp.get("legacy_pos") else inp["pos_order"]
+    if inp.get("legacy_pos"):
+        res.tags.append("c12:legacy_axis_keys")
+    feat_col = inp["cols"]["cf"] if (inp.get("features_arg") and "cf" not in inp["customs"] and not inp.get("via_file")) else None
     for u, m in by_uid.items():
         d = g.nodes[imp_by_uid[u]]
+        if feat_col is not None and d.get(feat_col) != m["cf"]:
+            res.fail("features_arg", f"node {m['id']}: column {feat_col!r} requested through features= is {d.get(feat_col)!r}, source {m['cf']!r}")
         if _as_int(d.get("time", -1)) != m["t"]:
             res.fail("time", f"node {m['id']}: time {d.get('time')} != {m['t']}")
         exp_pos = [m["pos"][i] for i in order]
